@@ -166,6 +166,7 @@ inline std::string TmpPath(const char* tag) {
 [[noreturn]] inline void TerminateHandler() {
   // an escaped exception: make it visible, then die with a recognisable status
   const char* msg = "vh: std::terminate (escaped exception)\n";
+  if (!std::getenv("VERIF_VERBOSE")) _exit(86);
   if (auto e = std::current_exception()) {
     try { std::rethrow_exception(e); }
     catch (const std::exception& ex) { std::fprintf(stderr, "vh: escaped exception: %s\n", ex.what()); }
